@@ -57,7 +57,8 @@ def gen(ch, tier):
     k = TIERS[tier]["schedules"]
     big = tier == "thorough" and ch.coin(0.3)
     scn = world.gen_gamma_scenario(ch.sub("scn"), max_annot=4, max_units=9 if big else 6,
-                                   max_samples=12 if big else 8, large_fast=0.12)
+                                   max_samples=12 if big else 8, large_fast=0.12,
+                                   precisions=(None, None, 0.3, 0.2, 0.15, 0.1))
     return {"scenario": scn,
             "schedules": [world.gen_schedule(ch.sub(f"sched{i}")) for i in range(k)],
             "with_cat": True, "real_pool_probe": ch.coin(0.25),
